@@ -51,7 +51,7 @@ const RUNTIME_ITEMS: [(&'static str, &'static str); 4] = [
     ("P", "function(a){return typeof a==='function'?a:()=>{}}"),
 ];
 
-const EXTRA_RUNTIME_ITEMS: [(&'static str, &'static str); 2] = [
+const EXTRA_RUNTIME_ITEMS: [(&'static str, &'static str); 3] = [
     (
         "a",
         "function(a){for(var i=0;i<a.length;i++)if(a[i])return a}",
@@ -59,6 +59,12 @@ const EXTRA_RUNTIME_ITEMS: [(&'static str, &'static str); 2] = [
     (
         "b",
         "function(b){var a=Object.values(b);for(var i=0;i<a.length;i++)if(a[i])return b}",
+    ),
+    // the marks of an update path tree node as own properties
+    // (the tree of a spliced array keeps its index marks on its prototype)
+    (
+        "c",
+        "function(a){var r={};for(var k in a)r[k]=a[k];return r}",
     ),
 ];
 
